@@ -82,7 +82,7 @@ def oblig(r):
         obs.append(('best-energy-is-cost+penalty-at-best', w.energy_is(be1, b1)))
         obs.append(('best-not-worse', le(be1, pre['en'][0])))
         obs.append(('best-is-old-vertex-or-evaluated-point', Or(Or(*[veq(b1, cv) for cv in pre['cpop']]), w.was_called_at(b1))))
-    elif k in ('nm-start', 'powell'):
+    elif k in ('nm-start', 'powell', 'mode-step'):
         post, g = r.post, r.g
         b1, be1 = post['best'], post['bestE']
         if k == 'nm-start':
@@ -96,9 +96,12 @@ def oblig(r):
             obs.append(('best-energy-is-cost+penalty-at-best@%d' % g, w.energy_is(be1, b1)))
             obs.append(('best-was-evaluated@%d' % g, w.was_called_at(b1)))
             # the initial guess as the solver evaluates it: clipped into the box, then constrained
-            g0 = w.C(w.clip(r.pre['x0']))
+            if k != 'mode-step' or not w.calls:
+                g0 = w.C(w.clip(r.pre['x0']))
+            else:
+                g0 = w.calls[0]        # tight/clip modes: the initial guess as the solver first evaluates it
             obs.append(('best<=initial-guess@%d' % g, Implies(w.inside(g0), le(be1, w.raw(g0)))))
-            if k == 'powell':
+            if k == 'powell' or (k == 'mode-step' and r.solver == 'Powell'):
                 eh = [L.scalar(e) for e in r.s.energy_history]
                 obs.append(('history-ends-in-best@%d' % g, eq(eh[-1], be1) if not isinf(eh[-1]) else const(False)))
     elif k == 'decoration':
@@ -175,6 +178,14 @@ def instances(tier, seed):
         for cfg in CF:
             out.append(Instance('decoration/%s/%s/dim=2' % (kind, cfg), S.decoration(kind, cfg, 2, oblig)))
     out += step_instances(tier, oblig)
+    # tight / clip range modes (concrete boxes)
+    pool = [S.BOX_POOL[0], S.BOX_POOL[3]] if q else S.BOX_POOL
+    for lo, hi in pool:
+        for mode in ('tight', 'clip=True'):
+            for kind in (('NM', 'Powell') if q else ('NM', 'Powell', 'DE', 'DE2')):
+                for cons in ((None,) if q else (None, 'pure')):
+                    out.append(Instance('mode-step/%s/%s/box%d/%s' % (kind, mode, S.BOX_POOL.index((lo, hi)), cons or 'nocons'),
+                                        S.mode_step(kind, mode, lo, hi, cons, oblig)))
     for kind in ('fmin', 'fmin_powell', 'diffev', 'diffev2'):
         for cfg in (('plain', 'box+cons+pen') if q else ('plain', 'pen', 'cons', 'box', 'box+cons+pen')):
             for mi in ((1,) if q else (0, 1, 2)):
